@@ -13,6 +13,7 @@ import (
 	"sort"
 	"strings"
 	"sync"
+	"sync/atomic"
 	"syscall"
 	"time"
 
@@ -145,10 +146,21 @@ func (self MetadataState) IsFailed() bool {
 	return strings.HasSuffix(string(self), string(Failed))
 }
 
+// Number of uniquifiers made by this process so far.
+var uniquifierCount uint32
+
 func makeUniquifier() string {
 	// Take the low 16 bits worth of the pid, and the low 24 bits
 	// (~6 months) of the unix time.
-	trimmedTime := uint32(time.Now().Unix()) & ((^uint32(0)) >> 8)
+	//
+	// The time only has a resolution of one second, so the number of
+	// uniquifiers made so far is added to it.  Time does not go backwards
+	// and the count strictly increases, so no two uniquifiers made by one
+	// process are the same.  In particular a job which is reset within the
+	// second in which it was started does not get the directory and
+	// journal names of the abandoned attempt again.
+	count := atomic.AddUint32(&uniquifierCount, 1)
+	trimmedTime := (uint32(time.Now().Unix()) + count) & ((^uint32(0)) >> 8)
 	return fmt.Sprintf("%04x%06x", uint16(os.Getpid()), trimmedTime)
 }
 
